@@ -94,12 +94,13 @@ func main() {
 		if rn.st {
 			rn.faultPhase()
 			rn.writeFaultPhase()
+			rn.fsizePhase()
 		}
 		rn.histPhase()
 		rn.scenarioPhase([]string{"quietread-write", "quietread-create"})
 	}
 	res.Notes = append(res.Notes, fmt.Sprintf("runner phases took %.1fs", time.Since(start).Seconds()),
-		"short writes (a failing write that stored a prefix) cannot be produced by strace: covered by the Coq theorem only")
+		"short writes cannot be injected by strace; they are produced for real with RLIMIT_FSIZE (Transform's tail write, Write) and otherwise covered by the Coq theorems")
 	res.Write(f.Out)
 }
 
